@@ -20,5 +20,5 @@ for c in $checks; do
   out=$(./check "$c" $extra 2>/dev/null)
   code=$?
   echo "=== $id vs $c: exit $code"
-  echo "$out" | grep -E "^VIOLATION|^  class:|^  scenario:|^KNOWN|^$c:" | head -40
+  echo "$out" | grep -a -E "^VIOLATION|^  class:|^  scenario:|^$c:" | head -40
 done
